@@ -39,6 +39,10 @@ def BIN(op, a, b): return {"k": "bin", "op": op, "a": a, "b": b}
 def CALL(f, a): return {"k": "call", "f": f, "a": a}
 def GEN(q, it, elt, cond=None):
     return {"k": "gen", "q": q, "it": it, "elt": elt, "hasif": cond is not None, "cond": cond if cond is not None else C(B(True))}
+def GEN2(q, it1, cond1, it2, elt):
+    """any/all(elt for x in it1 if cond1 for y in it2): the filter sits on the OUTER clause"""
+    return {"k": "gen2", "q": q, "it": it1, "cond": cond1, "it2": it2, "elt": elt}
+V2 = {"k": "var2"}
 def HELPER(f, fields, strs): return {"k": "helper", "f": f, "fields": list(fields), "strs": [[ord(c) for c in s] for s in strs]}
 def SUBSCR(a, i): return {"k": "sub", "a": a, "i": i}
 def IFEXP(c, a, b): return {"k": "ifexp", "c": c, "a": a, "b": b}
@@ -62,6 +66,9 @@ def src(e, vn="x"):
     if k == "const": return repr(val(e["v"]))
     if k == "field": return "r." + e["f"]
     if k == "var": return vn
+    if k == "var2": return "y"
+    if k == "gen2":
+        return f"{e['q']}({_src(e['elt'], 'x')} for x in {src(e['it'])} if {_src(e['cond'], 'x')} for y in {_src(e['it2'], 'x')})"
     if k == "tref": return "Type." + e["ty"]
     if k == "list": return "[" + ", ".join(src(x) for x in e["es"]) + "]"
     if k == "tuple": return "(" + ", ".join(src(x) for x in e["es"]) + ("," if len(e["es"]) == 1 else "") + ")"
@@ -98,7 +105,7 @@ def supported_interpreted(e):
     k = e["k"]
     if k in ("neg", "sub", "ifexp"): return False
     if k == "bin" and e["op"] in BINOPS_UNSUP: return False
-    for key in ("a", "b", "c", "it", "elt", "cond"):
+    for key in ("a", "b", "c", "it", "elt", "cond", "it2"):
         if key in e and isinstance(e[key], dict) and not supported_interpreted(e[key]): return False
     for x in e.get("es", []):
         if not supported_interpreted(x): return False
@@ -107,7 +114,7 @@ def supported_interpreted(e):
 
 def walk(e):
     yield e
-    for key in ("a", "b", "c", "it", "elt", "cond"):
+    for key in ("a", "b", "c", "it", "elt", "cond", "it2"):
         if key in e and isinstance(e[key], dict):
             yield from walk(e[key])
     for x in e.get("es", []):
@@ -213,8 +220,12 @@ def make_case(e, frecs, plain):
     else:
         code = compile(s, "<e>", "eval")
         py = [py_eval(code, r) for r in plain]
+    I1 = engine_eval(Selector, s, frecs)
+    Cc = engine_eval(CompiledSelector, s, frecs)
+    I2 = engine_eval(Selector, s, frecs)        # a NEW interpreted selector for the same text after the compiled one exists
+    C2 = engine_eval(CompiledSelector, s, frecs)
     return {"e": e, "src": s, "supI": supported_interpreted(e), "supC": True,
-            "py": py, "I": engine_eval(Selector, s, frecs), "C": engine_eval(CompiledSelector, s, frecs)}
+            "py": py, "I": I1 if I1 == I2 else I2, "C": Cc if Cc == C2 else C2}
 
 
 # ---------- the C08 grammar: exhaustive ----------
@@ -239,6 +250,10 @@ def c08_exprs():
                         continue
                 base = CMP(op, F("m"), other) if pos == "left" else CMP(op, other, F("m"))
                 tag = {"op": op, "pos": pos, "other": ok}
+                # the missing field wrapped in a helper that passes the sentinel through: lower(r.m), upper(r.m)
+                wrapped = CMP(op, CALL("lower", F("m")), other) if pos == "left" else CMP(op, other, CALL("upper", F("m")))
+                for cn, e in {"wrapped": wrapped, "wrapped_not": NOT(wrapped)}.items():
+                    out.append((e, dict(tag, ctx=cn)))
                 ctxs = {
                     "bare": base, "and_true": BOOL("And", base, C(B(True))), "true_and": BOOL("And", C(B(True)), base), "or_false": BOOL("Or", base, C(B(False))),
                     "or_true": BOOL("Or", base, C(B(True))), "not": NOT(base), "any": GEN("any", LST(C(I(1)), C(I(2))), base), "all": GEN("all", LST(C(I(1))), base),
@@ -295,6 +310,11 @@ def c07_exprs(rnd, budget):
                for b in (LST(C(S("a")), C(S("b"))), TUP(C(I(1)), C(I(2))), LST(C(S("zz"))), C(S("a")), C(I(1)))
                for c in (LST(), C(S("a")), TUP(C(I(3)), C(I(4))), LST(LST(C(S("zz"))), C(I(1))))
                if not (o == "In" and b["k"] == "const")]       # `Type.t in <text>` is documented as interpreted-only
+    # generator expressions with TWO for-clauses and a filter on the outer one
+    gen2x = [GEN2(q, it1, c1, it2, elt) for q in ("any", "all") for it1 in (F("l"), LST(C(I(1)), C(I(2)), C(I(3))), F("s"))
+             for c1 in (CMP("NotEq", V, C(S("a"))), CMP("Gt", V, C(I(1))), CMP("Eq", V, V))
+             for it2 in (F("l"), LST(C(I(2)), C(I(3))), LST(V, C(S("b"))))
+             for elt in (CMP("Eq", V, V2), CMP("Lt", V, V2), CMP("In", V2, F("l")))]
     helpers = [HELPER(f, fs, ss) for f in ("field_equals", "field_contains", "field_regex") for fs in (["s"], ["s", "z"], ["n"], ["w", "s"]) for ss in (["a"], ["AB"], ["b", "a"], [""], ["", "q"])]
     # two generator expressions in ONE expression (same loop variable), under and / or / not
     g_short = [x for x in gens if x["it"] in (F("l"), F("s")) or x["it"] in lists]
@@ -319,7 +339,7 @@ def c07_exprs(rnd, budget):
             [CMP(o, F("l"), mk(*es)) for o in ("Eq", "NotEq") for es in elems for mk in (LST, TUP)] + \
             [CMP(o, mk(*es), LST(mk1(*es), C(I(1)))) for o in ("In", "NotIn") for es in elems[:3] for mk in (LST, TUP) for mk1 in (LST, TUP)] + \
             [CMP("Eq", BIN("Add", mk(*es), mk(*es)), mk2(*(es + es))) for es in elems[:3] for mk in (LST, TUP) for mk2 in (LST, TUP)]
-    groups = {"kinds": kinds, "typed": typed, "ip_path": iph, "cmp": cmps, "bin": [CMP("Eq", b, C(I(2))) for b in bins] + bins, "call": calls, "chain": chains, "gen": gens, "l2cmp": l2, "neg": negs, "bool": bools, "not": nots, "helper": helpers, "gen2": gen2, "unsupported": unsup, "gen_named": gen_named, "typed_chain": tchains}
+    groups = {"kinds": kinds, "typed": typed, "ip_path": iph, "cmp": cmps, "bin": [CMP("Eq", b, C(I(2))) for b in bins] + bins, "call": calls, "chain": chains, "gen": gens, "l2cmp": l2, "neg": negs, "bool": bools, "not": nots, "helper": helpers, "gen2": gen2, "unsupported": unsup, "gen_named": gen_named, "typed_chain": tchains, "gen2x": gen2x}
     total = sum(len(g) for g in groups.values())
     out = []
     # groups of moderate size are ALWAYS taken completely (a sample of them once lost the only expressions that tell a
